@@ -148,6 +148,7 @@ def gen_world(rs: int, P: dict) -> dict:
     sorted_party = party_kind in ("greedy", "rr")
     stations = []
     hetero = r.random() < P["heterovolt"]
+    near_equal_v = sub(rs, "near_equal_voltages").random() < 0.05      # measured voltages: equal to within a few ppm, not exactly
     v0 = r.choice(VOLTAGES)
     ckind = wchoice(r, P["constraints"])
     palette = PHASES3
@@ -173,7 +174,7 @@ def gen_world(rs: int, P: dict) -> dict:
             e["max"] = rr_.choice([8, 16, 24, 32])
         stations.append({
             "id": nm, "evse": e,
-            "voltage": rr_.choice(VOLTAGES) if hetero else v0,
+            "voltage": (rr_.choice(VOLTAGES) if hetero else v0) * (1 + (rr_.choice([0, 2e-6, 8e-6, -5e-6]) if near_equal_v else 0)),
             "phase": (rr_.choice(palette) if ckind == "three" else 0),
         })
     rsub = sub(rs, "evse_subclass")
@@ -224,6 +225,8 @@ def gen_world(rs: int, P: dict) -> dict:
             pool = ["I[a]", "Sec*", "c?", "a b", "1", "01", "c", "cc", "A.B", "(x)", "c1|c2", "^p$"]
             for c_, nm_ in zip(cons, rc.sample(pool, min(len(pool), len(cons)))):
                 c_["name"] = nm_
+            if len(cons) >= 2 and rc.random() < 0.4:
+                cons[0]["name"], cons[1]["name"] = "Line-A", "Line-a"      # two names that differ by case only
     tol = sub(rs, "tol")
     net = {
         "kind": P["net"],
